@@ -199,6 +199,7 @@ type Cluster struct {
 	// TxSchedule lists virtual instants (ascending) at which a new transaction appears.
 	TxSchedule []int64
 
+	deferred  []*Node // new-transaction notifications owed to nodes once the current API call has returned
 	nextUID   int
 	nextEnv   int
 	nextTx    uint64
@@ -545,6 +546,9 @@ func (n *Node) NewInstance() error {
 				hs[i] = t.Hash()
 			}
 			c.emit(&Event{Node: n.ID, Kind: KGetVerified, Hs: hs})
+			if len(l) == 0 && c.chance(c.Cfg.K.PTxAtPoolRead) {
+				c.AddTx(false, 0) // arrives just after the pool was read
+			}
 			return l
 		}),
 		dbft.WithVerifyBlock[H](func(b dbft.Block[H]) bool {
